@@ -91,8 +91,9 @@ def vec_layout(f, target_pred=None, must_targets=None):
         items.append({'block': bi, 'op': op, 'recv': recv, 'value': val, 'width': w, 'loc': f.loc(bi)})
     # 'must': executed on every path from entry to a normal return
     rets = f.return_blocks() if must_targets is None else must_targets
+    inf = f.infeasible_edges()
     for it in items:
-        r = f.reachable(0, removed_blocks=[it['block']])
+        r = f.reachable(0, removed_blocks=[it['block']], removed_edges=inf)
         it['must'] = not any(x in r for x in rets)
         # inside a loop?
         it['in_loop'] = it['block'] in f.reachable(it['block'], removed_blocks=[]) and any(it['block'] in f.reachable(s) for s in f.succ[it['block']])
@@ -263,3 +264,40 @@ def dissector_layout(F, parse_fid, new_fid=None):
             break
         cur = nxt
     return seq, info
+
+
+def field_groups(f, items, classify):
+    """Group an append list into wire fields.  classify(item) -> kind label.  Consecutive items of one kind form a
+    field; a field made of conditional appends is accepted only when its items are mutually exclusive and jointly
+    executed on every feasible path (one alternative per path).  -> (fields, problems); a field is
+    dict(kind, items, alternatives: bool, width: total bytes if known and not alternative)"""
+    fields, problems = [], []
+    for it in items:
+        k = classify(it)
+        if fields and fields[-1]['kind'] == k:
+            fields[-1]['items'].append(it)
+        else:
+            fields.append({'kind': k, 'items': [it]})
+    inf = f.infeasible_edges()
+    rets = f.return_blocks()
+    for fd in fields:
+        its = fd['items']
+        if all(i['must'] for i in its):
+            fd['alternatives'] = False
+            fd['width'] = sum(i['width'] for i in its) if all(i['width'] is not None and not i['in_loop'] for i in its) else None
+            continue
+        fd['alternatives'] = True
+        fd['width'] = None
+        if any(i['must'] for i in its):
+            problems.append('%s: mixes unconditional and conditional appends' % fd['kind'])
+            continue
+        blocks = [i['block'] for i in its]
+        for a in blocks:
+            ra = f.reachable(a, removed_edges=inf)
+            if any(b in ra for b in blocks if b != a) or any(a in f.reachable(s_, removed_edges=inf) for s_ in f.succ[a]):
+                problems.append('%s: alternatives are not mutually exclusive' % fd['kind'])
+                break
+        r = f.reachable(0, removed_blocks=blocks, removed_edges=inf)
+        if any(x in r for x in rets):
+            problems.append('%s: some feasible path appends none of the alternatives' % fd['kind'])
+    return fields, problems
